@@ -27,6 +27,12 @@ class Deadlock(RuntimeError):
     (threads of an executor answer within milliseconds): whatever is awaited will never finish"""
 
 
+class BusyLoop(KeyboardInterrupt):
+    """raised by the runner's real-time watchdog inside whatever code is running; derived from
+    KeyboardInterrupt so that neither `except Exception` in the code under test nor asyncio's task
+    machinery swallows it (asyncio re-raises KeyboardInterrupt out of the running loop)"""
+
+
 IDLE_LIMIT_S = 10.0
 
 
